@@ -69,10 +69,12 @@ TABLE = {
             "must return exactly its solo result.  The exploration is repeated under 4 hash seeds with different rating ids and must "
             "produce one digest.", "§3-E2, §3-E3, §6 C14",
             "CPython GIL atomicity of C-level calls; sys.settrace line/opcode events as scheduling points; uuid4 replaced by a counter", "E2+E3"),
-    "C15": ("exploration", "bounded-exhaustive metamorphic comparison of two real executions (per-call option vs. model-level option)",
+    "C15": ("model_checking", "bounded-exhaustive metamorphic comparison of two real executions + explicit-state BFS over call histories with invariant I6",
             "On every game of S2 and T3 (sigma alphabet extended so tau and the clamp are visible) x every weak order, 24 comparisons "
             "Model(s').rate(g, option) == Model(option).rate(g) incl. tau=0 / 0.0 / 1e-300, explicit None and mixed options, "
-            "for all five models; 1e-12 relative.", "§6 C15", "none beyond CPython floats (both sides are the real code)", "E1"),
+            "for all five models; 1e-12 relative.  E2: on every rate transition with a per-call option, in every state reachable by one "
+            "(thorough: two) earlier calls, the result must equal what a fresh model built with those options returns (I6).",
+            "§6 C15, §3-E2", "none beyond CPython floats (both sides are the real code)", "E1+E2"),
     "C16": ("exploration", "bounded-exhaustive metamorphic comparison under rescaling and shifting of the skill scale",
             "Every game x weak order of S2, P2, P3, T3, T4|V4 rescaled by 4 factors (PL, BT) and shifted by 3 offsets (all five, equal team sizes); "
             "predictions on G2, G3, G4 under the same transformations.", "§6 C16", "R4; TM shift: reference-interval width", "E1"),
